@@ -352,8 +352,8 @@ def gen_cases(chk):
     cases = []
     quick = chk.quick()
     # A. exhaustive: every arrival order of <= 5 fragments (uniform, uneven, overlapping with distinct offsets)
-    for count in range(1, 6):
-        length = 10 + count
+    for count in range(1, 6 if quick else 8):
+        length = 10 + count if count <= 5 else 3 * count
         pay = payload_of(count, length)
         variants = [('uniform', split_uniform(length, count)), ('uneven', split_uneven(rng, length, count)),
                     ('overlap', split_overlap(rng, length, count))]
@@ -362,12 +362,14 @@ def gen_cases(chk):
                 continue
             for perm in itertools.permutations(range(count)):
                 cases.append(make_case('perm/' + vname, [(IDS[0], pay, pieces)], lambda per, perm=perm: [per[0][idx] for idx in perm], rng))
+                if count > 5:
+                    continue        # thorough tier: 6 and 7 fragments, plain permutations only
                 # one duplicate of a fragment chosen in turn, re-sent at a later position
                 dup = perm[rng.randrange(count)]
                 where = rng.randrange(perm.index(dup) + 1, count + 1)
                 hist = list(perm[:where]) + [dup] + list(perm[where:])
                 cases.append(make_case('perm+dup/' + vname, [(IDS[0], pay, pieces)], lambda per, hist=hist: [per[0][idx] for idx in hist], rng))
-                if True:
+                if True:   # (kept as a block: every permutation is also interleaved)
                     # interleaved with a second bundle (same source, next sequence number / other source / other time)
                     other = IDS[1 + rng.randrange(3)]
                     pay2 = payload_of(100 + count, 9 + rng.randrange(4))
@@ -496,7 +498,7 @@ def evaluate(chk, cases, name, with_oracle=True, with_model=True):
     if with_model:
         started = time.time()
         model = chk.coq_eval(name, ['Lib.Ivl', 'Model.BpReasm'], [coq_case(case) for case in cases],
-                             '(BpReasm.run_render BpReasm.init)', chunk=120)
+                             '(BpReasm.run_render BpReasm.init)', chunk=max(40, -(-len(cases) // 16)))
         PHASES.append(('model:' + name, round(time.time() - started, 1)))
     diffs = []
     for (pos, (case, obs)) in enumerate(zip(cases, impl)):
@@ -612,7 +614,7 @@ def main():
             print('# broken: %s: %s' % (name, detail[:1200]))
     print('phases (wall s): %s' % ', '.join('%s %.1f' % item for item in PHASES))
     chk.finish(
-        rule=('arrival histories of fragment bundles fed to a fresh real agent: (A) all permutations of 1..5 fragments of one '
+        rule=('arrival histories of fragment bundles fed to a fresh real agent: (A) all permutations of 1..5 (thorough: 1..7) fragments of one '
               'bundle for a uniform, an uneven and an overlapping (distinct offsets) fragmentation, each also with one duplicate '
               're-sent later and interleaved with the fragments of a second bundle (same source next sequence number / other '
               'source / other creation time); (B) all orders of 3 fragments x all pairs of duplicated fragments x 4 placements; '
